@@ -233,6 +233,13 @@ void World::quiescent_point() {
 	}
 	c10_quiescent();
 	c19_quiescent();
+	// bounded liveness of the upgrade: the daemon has read the whole (valid, default) upgrade request of a client that is still there, nothing else is going
+	// to happen, and yet it has written nothing: what it does with the bytes it has must not wait for further bytes to arrive (C09: a function of the bytes alone)
+	if (q.empty()) for (auto &c : clients) {
+		if (c.transport != "ws" || !c.hs_sent || c.hs_ok || !c.policy.has("wskey") || c.policy.has("expect_http") || c.policy.getb("c19")) continue;
+		if (!c.accepted || c.daemon_closed || c.client_closed || c.faulty || c.no_expect || !c.out.empty() || c.space == 0 || c.rx_off < c.rx.size() || c.chunks_queued > 0) continue;
+		violation(plan.hdr.gets("canary_prop", "C12"), "upgrade-request-read-but-not-answered", "connection c" + std::to_string(c.idx) + ": the daemon has read the complete upgrade request, the event loop is idle, and neither 101 nor an error has been written");
+	}
 	for (auto &c : clients) {
 		if (c.policy.gets("expect_http") == "reject" && c.hs_sent && c.accepted && !c.daemon_closed && !c.http_err_seen)
 			violation("C13", "invalid-request-not-answered", "a complete request that is not a valid upgrade (" + c.policy.gets("defect") + ") was neither answered with an error status nor closed");
